@@ -139,9 +139,9 @@ Proof.
   intros H. apply quote_loop_aligned in H. cbn [length] in H. lia.
 Qed.
 
-Lemma item_loop_aligned types : forall after prepend buf_rev taken newlines buf n nm,
+Lemma item_loop_aligned types leader : forall after prepend buf_rev taken newlines buf n nm,
   (newlines <= length buf_rev)%nat -> (1 <= taken)%nat ->
-  item_loop types after prepend buf_rev taken newlines = (buf, n, nm) ->
+  item_loop types leader after prepend buf_rev taken newlines = (buf, n, nm) ->
   (length buf + taken <= n + length buf_rev)%nat /\ (n <= taken + length after)%nat.
 Proof.
   induction after as [|line r IH]; intros prepend buf_rev taken newlines buf n nm Hn Ht H;
@@ -151,8 +151,10 @@ Proof.
     + apply IH in H; [cbn [length] in *; lia| |lia]. cbn [length]. destruct (str_eqb cont [10]); lia.
     + destruct (any_interrupt types BK_List (line :: r)).
       * inversion H; subst. rewrite rev_length, skipn_length. cbn [length]. destruct newlines; lia.
-      * destruct (parse_marker line).
-        -- inversion H; subst. rewrite rev_length. cbn [length]. lia.
+      * destruct (parse_marker line) as [[[[? ?] other] ?]|].
+        -- destruct (same_marker_type leader other).
+           ++ inversion H; subst. rewrite rev_length. cbn [length]. lia.
+           ++ inversion H; subst. rewrite rev_length, skipn_length. cbn [length]. destruct newlines; lia.
         -- destruct newlines.
            ++ apply IH in H; [cbn [length] in *; lia| |lia]. cbn [length]. destruct (str_eqb line [10]); lia.
            ++ injection H as <- <- _. destruct buf_rev as [|x br]; [cbn in Hn; lia|].
